@@ -3,6 +3,12 @@ import Varpulis.Model.Partition
 namespace Varpulis.Window
 
 
+@[simp] theorem flushed_flatten (b : List Ev) : (flushed b).flatten = b := by
+  unfold flushed; split <;> simp_all
+
+theorem mem_flushed {w b : List Ev} (h : w ∈ flushed b) : w = b := by
+  unfold flushed at h; split at h <;> simp_all
+
 theorem adds_cons (o : Op) (os : List Op) : adds (o :: os) = adds [o] ++ adds os := by
   cases o <;> simp [adds]
 
@@ -128,7 +134,7 @@ theorem tumbling_step_inv {d now : Int} (hd : 0 < d) {s : Tumbling} (h : TInv d 
   | flush =>
     simp only [nextNow, Op.time, Option.getD_none]
     simp only [tumbling, Tumbling.step]
-    refine ⟨⟨by simp, h2, by simp, by simp, by simp⟩, by simpa using hb⟩
+    refine ⟨⟨by simp, h2, by simp, by simp, by simp⟩, fun w hw => mem_flushed hw ▸ hb⟩
   | expire t =>
     simp only [nextNow, Op.time, Option.getD_some] at hle ⊢
     simp only [tumbling, Tumbling.step]
@@ -208,7 +214,7 @@ theorem session_step_inv {g now : Int} {s : Session} (h : SInv g now s) (o : Op)
   | flush =>
     simp only [nextNow, Op.time, Option.getD_none]
     simp only [session, Session.step]
-    exact ⟨hinit now, by simpa using h3⟩
+    exact ⟨hinit now, fun w hw => mem_flushed hw ▸ h3⟩
   | expire t =>
     simp only [nextNow, Op.time, Option.getD_some] at hle ⊢
     simp only [session, Session.step]
@@ -251,7 +257,7 @@ theorem count_trace {n : Nat} (hn : 0 < n) : ∀ (ops : List Op) (s : Count), s.
         · simp at *; omega
         · simp at *; omega
       · simp [h]
-      · simp [hn, h]
+      · exact ⟨by simp [hn], fun w hw => by rw [mem_flushed hw]; simp [h]⟩
       · simp [h]
     exact ⟨(ih _ key.1).1, key.2, (ih _ key.1).2⟩
 theorem dropWhile_eq_filter_of_sorted (c : Int) : ∀ (l : List Ev), l.Pairwise (fun a b => a.ts ≤ b.ts) →
